@@ -12,14 +12,15 @@ echo "== suite with the change (worktree)"
 ( cd "$WT" && /venv/bin/python -m pytest -q -p no:cacheprovider --timeout=900 -n 8 2>&1 | tail -1 ) | tee "$OUT/suite_with.txt"
 echo "== demo with the change"
 ( cd "$WT" && PYTHONPATH="$WT" /venv/bin/python demo_seeded.py >/dev/null 2>&1; echo "exit=$?" ) | tee "$OUT/demo_with.txt"
-( cd "$WT" && git stash -q -- panqec )
+# (no git stash: the stash stack is shared by all worktrees of /repo)
+( cd "$WT" && git checkout -q -- panqec )
 echo "== suite without the change"
 ( cd "$WT" && /venv/bin/python -m pytest -q -p no:cacheprovider --timeout=900 -n 8 2>&1 | tail -1 ) | tee "$OUT/suite_without.txt"
 echo "== demo without the change"
 ( cd "$WT" && PYTHONPATH="$WT" /venv/bin/python demo_seeded.py >/dev/null 2>&1; echo "exit=$?" ) | tee "$OUT/demo_without.txt"
-( cd "$WT" && git stash pop -q )
+( cd "$WT" && git apply "$OUT/patch.diff" )
 echo "== checks against the change (scratch worktree via VERIF_REPO; /repo is not touched)"
-( cd "$WT" && git stash -q -- panqec; git checkout -q --detach "$(git -C /repo rev-parse HEAD)" 2>/dev/null; git stash pop -q ) 2>&1 | tail -2
+( cd "$WT" && git checkout -q -- panqec; git checkout -q --detach "$(git -C /repo rev-parse HEAD)" 2>/dev/null; git apply "$OUT/patch.diff" ) 2>&1 | tail -2
 ( cd "$WT" && git status --short | head -3 )
 for C in "$@"; do
   ( cd /verif && VERIF_REPO="$WT" timeout 3000 ./check "$C" --tier quick > "$OUT/check_$C.log" 2>&1; echo "check $C exit=$?" ) | tee -a "$OUT/checks.txt"
